@@ -569,6 +569,18 @@ def check_no_rollback(prog, rep, rule="NO-ROLLBACK"):
                     conn_like = norm(ce) in aliases if f2.cls is cls else (isinstance(ce, ast.Attribute) and ce.attr == "conn") or (isinstance(ce, ast.Name) and isinstance(single_def(f2, ce.id), ast.Attribute) and single_def(f2, ce.id).attr == "conn") or (isinstance(ce, ast.Name) and isinstance(single_def(f2, ce.id), ast.Call) and norm(single_def(f2, ce.id).func) == "getattr" and len(single_def(f2, ce.id).args) >= 2 and norm(single_def(f2, ce.id).args[1]) == "'conn'")
                     if conn_like:
                         rep.violation(rule, f2.short, f"with {norm(it.context_expr)}", f"`with {norm(it.context_expr)}:` makes sqlite3 roll the whole open transaction back when the block raises (and commit it, without resetting the counters, when it does not): an error in this operation discards earlier acknowledged writes of other operations and other buckets", f2.loc(x))
+    # rollbacks spelled in SQL: a conflict clause OR ROLLBACK, a ROLLBACK statement (ROLLBACK TO <savepoint> only undoes back
+    # to the savepoint and is not one); COMMIT / END / RELEASE of an outermost savepoint end the transaction behind commit()'s back
+    from .sqlmodel import sql_sites
+
+    for s_ in sql_sites(prog):
+        st = s_.stmt
+        if getattr(st, "on_conflict", None) == "ROLLBACK":
+            rep.violation(rule, s_.fi.short, f"{st.kind.upper()} OR ROLLBACK", "the conflict clause OR ROLLBACK makes SQLite roll back the WHOLE open transaction when the statement hits a constraint (e.g. an insert into a bucket that does not exist): every write acknowledged since the last commit, of every bucket, is silently discarded while later writes commit normally -- the file is no longer a prefix of the issued writes", s_.loc())
+        if st.kind == "txn" and st.verb == "ROLLBACK" and not getattr(st, "to_savepoint", False):
+            rep.violation(rule, s_.fi.short, "ROLLBACK statement", "an SQL ROLLBACK discards every write acknowledged since the last commit", s_.loc())
+        if st.kind == "txn" and st.verb in ("COMMIT", "END") and s_.fi.short != "SqliteStorage.commit":
+            rep.violation("COMMIT-F", s_.fi.short, f"{st.verb} statement", "the transaction is ended by an SQL statement outside commit(): counter and time stamp are not reset", s_.loc())
     rep.ok(rule, "aw_datastore", "scan", f"{n} functions scanned", None)
 
 
